@@ -17,53 +17,90 @@ set_option linter.unusedSectionVars false
 open NiftyVerif.NewtonRe NiftyVerif.Iter
 
 variable {K V : Type} [Field K] [LinearOrder K] [IsStrictOrderedRing K] [AddCommGroup V] [Module K V]
-variable (c : Cfg K) (f : V → K × V) (hessp : V → V → V) (ip : V → V → K) (gradnorm : V → K)
-  (cg : V → V → V × Int)
+variable (c : Cfg K) (f : V → K × V) (hessp : V → V → V) (ip : V → V → K) (gradnorm : V → K) (cgnorm : V → K)
+  (cg : CgArgs K → V → V → V × Int) (nrm : V → K)
 
 /-- **Eager Newton-CG never goes uphill**: for all objectives, oracles and limits the returned `fun` is the energy of the
     returned point, `jac` its gradient, and it is not above the energy of the start. -/
-theorem ncg_never_uphill (x0 : V) (r : NRes K V) (h : ncgEager c f hessp ip gradnorm cg x0 = .ok r) :
+theorem ncg_never_uphill (x0 : V) (r : NRes K V) (h : ncgEager c f hessp ip gradnorm cgnorm cg x0 = .ok r) :
     r.fn = (f r.x).1 ∧ r.jac = (f r.x).2 ∧ r.fn ≤ (f x0).1 := by
   unfold ncgEager at h
-  exact ncgEagerLoop_inv c f hessp ip gradnorm cg (f x0).1 c.maxiter 1 ⟨x0, (f x0).1, (f x0).2⟩
+  exact ncgEagerLoop_inv c f hessp ip gradnorm cgnorm cg (f x0).1 c.maxiter 1 ⟨x0, (f x0).1, (f x0).2, c.oldFval⟩
     ⟨rfl, rfl, le_refl _⟩ r h
 
-/-- **Program equivalence** (no guard): the compiled minimiser returns exactly the eager minimiser's
-    `(x, status, fun, jac, nit)` and raises exactly where it raises — for every objective, every CG oracle
-    (the same oracle on both sides), every `miniter/maxiter/absdelta/xtol`, including `maxiter = 0`. -/
-theorem static_ncg_eq_eager (x0 : V) :
-    match ncgEager c f hessp ip gradnorm cg x0 with
-    | .ok r => ncgStatic c f hessp ip gradnorm cg x0 = some r
-    | .error _ => ncgStatic c f hessp ip gradnorm cg x0 = none :=
-  ncgStatic_sim c f hessp ip gradnorm cg x0
+/-- **Compiled Newton-CG never goes uphill** (direct invariant of the compiled loops; no guard). -/
+theorem static_ncg_never_uphill (x0 : V) (r : NRes K V) (h : ncgStatic c f hessp ip gradnorm cgnorm cg x0 = some r) :
+    r.fn = (f r.x).1 ∧ r.jac = (f r.x).2 ∧ r.fn ≤ (f x0).1 := by
+  unfold ncgStatic at h
+  simp only [] at h
+  cases hl : ncgStaticLoop c f hessp ip gradnorm cgnorm cg c.maxiter
+      { status := if c.maxiter = 0 then 0 else -2, it := 0, pos := x0, energy := (f x0).1, g := (f x0).2,
+        oldE := c.oldFval } with
+  | none => rw [hl] at h; simp at h
+  | some v =>
+    rw [hl] at h
+    simp only [Option.map_some, Option.some.injEq] at h
+    subst h
+    exact ncgStaticLoop_inv c f hessp ip gradnorm cgnorm cg (f x0).1 c.maxiter _ v ⟨rfl, rfl, le_refl _⟩ hl
+
+/-- **Program equivalence**: the compiled minimiser returns exactly the eager minimiser's `(x, status, fun, jac, nit)` and
+    raises exactly where it raises — for every objective, every CG oracle, every `miniter/maxiter/absdelta/xtol`
+    (including `maxiter = 0`), INCLUDING the stopping parameters both variants derive for the inner CG from the energy
+    history. Guard (made as weak as the code allows): `energy_reduction_factor` is a non-zero number, no energy value is
+    exactly `0` (the eager code tests `old_fval` for truthiness, the compiled one for `isinf`), and — only when `absdelta`
+    is `None` — the CG oracle answers alike for `absdelta=None` (eager, first iteration) and `absdelta=0.` (compiled). -/
+theorem static_ncg_eq_eager (e : K) (he : c.erf = some e) (he0 : e ≠ 0) (hold : c.oldFval ≠ some 0)
+    (hf0 : ∀ x, (f x).1 ≠ 0)
+    (hcg0 : c.absdelta = none → ∀ m p g, cg ⟨none, m⟩ p g = cg ⟨some 0, m⟩ p g) (x0 : V) :
+    match ncgEager c f hessp ip gradnorm cgnorm cg x0 with
+    | .ok r => ncgStatic c f hessp ip gradnorm cgnorm cg x0 = some r
+    | .error _ => ncgStatic c f hessp ip gradnorm cgnorm cg x0 = none := by
+  apply ncgStatic_sim c f hessp ip gradnorm cgnorm cg
+    (fun s => Inv f (f x0).1 s ∧ s.oldF ≠ some 0)
+  · intro s i s' hP hstep
+    have hinv := ncgEagerStep_inv c f hessp ip gradnorm cgnorm cg (f x0).1 i s hP.1
+    rw [hstep] at hinv
+    simp only at hinv
+    refine ⟨hinv.1, ?_⟩
+    rw [hinv.2.2]
+    intro h
+    have : s.energy = 0 := by simpa using h
+    exact hf0 s.pos (by rw [← hP.1.1]; exact this)
+  · intro s i hP
+    by_cases hn : s.oldF = none ∧ c.absdelta = none
+    · have h := hcg0 hn.2 (cgnorm s.g) s.pos s.g
+      have e1 : eagerCgArgs c cgnorm s = ⟨none, cgnorm s.g⟩ := by
+        simp [eagerCgArgs, hn.1, hn.2, truthy]
+      have e2 : staticCgArgs c cgnorm (sOf s i) = ⟨some 0, cgnorm s.g⟩ := by
+        simp [staticCgArgs, sOf, hn.1, hn.2, he]
+      rw [e1, e2]; exact h
+    · rw [cgArgs_eq c cgnorm e he he0 s i hP.2 (fun h1 h2 => hn ⟨h1, h2⟩)]
+  · exact ⟨⟨rfl, rfl, le_refl _⟩, hold⟩
 
 /-- **Full-stack equivalence**: the compiled minimiser running the compiled conjugate gradient (`_static_cg`) returns
-    exactly what the eager minimiser running the eager conjugate gradient (`_cg`) returns — for every objective, every CG
-    stopping configuration that allows one iteration (`_raise_nonposdef = False`, as `_newton_cg` passes it), all limits. -/
-theorem static_stack_eq_eager_stack (cc : CgRe.Cfg K) (hr : cc.raiseNPD = false) (hmax : 0 < CgRe.maxiterEff cc) (x0 : V) :
-    match ncgEager c f hessp ip gradnorm (cgOracle cc ip hessp) x0 with
-    | .ok r => ncgStatic c f hessp ip gradnorm (cgOracleStatic cc ip hessp) x0 = some r
-    | .error _ => ncgStatic c f hessp ip gradnorm (cgOracleStatic cc ip hessp) x0 = none := by
-  rw [cgOracleStatic_eq cc ip hessp hr hmax]
-  exact static_ncg_eq_eager c f hessp ip gradnorm (cgOracle cc ip hessp) x0
+    exactly what the eager minimiser running the eager conjugate gradient (`_cg`) returns, with the inner solver's stopping
+    parameters (`absdelta` from the energy history, `resnorm = min(0.5, √mag)·mag`) derived as the code derives them —
+    for every objective, every CG base configuration allowing one iteration; guard as in `static_ncg_eq_eager`, with
+    `absdelta` given (so that both variants pass the same `cg_absdelta` in the first iteration). -/
+theorem static_stack_eq_eager_stack (base : CgRe.Cfg K) (pa pr : Bool) (hmax : 0 < CgRe.maxiterEff base)
+    (e : K) (he : c.erf = some e) (he0 : e ≠ 0) (hold : c.oldFval ≠ some 0) (hf0 : ∀ x, (f x).1 ≠ 0)
+    (habs : c.absdelta ≠ none) (x0 : V) :
+    match ncgEager c f hessp ip gradnorm cgnorm (cgOracle base pa pr ip nrm hessp) x0 with
+    | .ok r => ncgStatic c f hessp ip gradnorm cgnorm (cgOracleStatic base pa pr ip nrm hessp) x0 = some r
+    | .error _ => ncgStatic c f hessp ip gradnorm cgnorm (cgOracleStatic base pa pr ip nrm hessp) x0 = none := by
+  rw [cgOracleStatic_eq base pa pr ip nrm hessp hmax]
+  exact static_ncg_eq_eager c f hessp ip gradnorm cgnorm (cgOracle base pa pr ip nrm hessp) e he he0 hold hf0
+    (fun h => absurd h habs) x0
 
-/-- **Compiled Newton-CG never goes uphill.** -/
-theorem static_ncg_never_uphill (x0 : V) (r : NRes K V) (h : ncgStatic c f hessp ip gradnorm cg x0 = some r) :
-    r.fn = (f r.x).1 ∧ r.jac = (f r.x).2 ∧ r.fn ≤ (f x0).1 := by
-  have hs := static_ncg_eq_eager c f hessp ip gradnorm cg x0
-  cases hE : ncgEager c f hessp ip gradnorm cg x0 with
-  | ok r' =>
-    rw [hE] at hs
-    simp only at hs
-    rw [hs] at h
-    have hr : r' = r := by simpa using h
-    subst hr
-    exact ncg_never_uphill c f hessp ip gradnorm cg x0 r' hE
-  | error e =>
-    rw [hE] at hs
-    simp only at hs
-    rw [hs] at h
-    cases h
+/-- the excluded region of `static_ncg_eq_eager` is real: after an iterate with energy exactly `0` the eager code
+    (truthiness test) falls back to `absdelta/100` while the compiled code uses `energy_reduction_factor·(0 − energy)` -/
+theorem zero_energy_args_differ :
+    eagerCgArgs (V := ℚ) { miniter := 0, maxiter := 3, absdelta := some (1 : ℚ), xtol := 0, erf := some (1 / 10), oldFval := none }
+        (fun g => |g|) ⟨0, -1, 1, some 0⟩
+      ≠ staticCgArgs { miniter := 0, maxiter := 3, absdelta := some (1 : ℚ), xtol := 0, erf := some (1 / 10), oldFval := none }
+        (fun g => |g|) ⟨-2, 1, 0, -1, 1, some 0⟩ := by
+  simp [eagerCgArgs, staticCgArgs, truthy, hundred, two]
+  norm_num
 
 /-- **The line search accepts the first trial of its schedule that does not increase the energy** (trials 0–5 at
     `pos − 2⁻ᵏ·nat_g`, trials 6–8 at `pos − 2⁻⁽ᵏ⁻⁶⁾·γ/|curv|·g`), and fails only if none of the nine does. -/
@@ -76,38 +113,40 @@ theorem line_search_accepts_first (pos : V) (energy : K) (g natg : V) :
   lineSearchEager_first f hessp ip pos energy g natg
 
 /-- **Negative curvature ⇒ progress along −g** (see `ncgEagerStep_negcurv`): with the C15 conjugate gradient as inner
-    solver (any stopping configuration with `_raise_nonposdef = False`, as `_newton_cg` passes it), symmetric bilinear
+    solver (every base configuration, every stopping parameters the minimiser derives; `_raise_nonposdef = False` as
+    `_newton_cg` passes it), symmetric bilinear
     `ip ≥ 0` and a linear self-adjoint Hessian at the position: if `g ≠ 0`, `gᵀHg < 0` and some trial length of the
     schedule does not increase `f` along `−g`, the iteration neither aborts (status −1) nor fails, and moves to
     `pos − s·g` for the first such trial length `s > 0`; all earlier trial lengths give strictly higher energy.
     (If that first acceptable trial is strictly lower, the energy strictly decreases.) -/
-theorem negcurv_progress (cc : CgRe.Cfg K) (i : Nat) (s : NSt K V) (hip : SymmBilin ip)
+theorem negcurv_progress (base : CgRe.Cfg K) (pa pr : Bool) (i : Nat) (s : NSt K V) (hip : SymmBilin ip)
     (hm : Linear (K := K) (hessp s.pos)) (hsa : CgRe.SelfAdj ip (hessp s.pos)) (hnn : ∀ a, 0 ≤ ip a a)
-    (hraise : cc.raiseNPD = false) (hmax : 0 < CgRe.maxiterEff cc) (hg0 : ip s.g s.g ≠ 0)
+    (hmax : 0 < CgRe.maxiterEff base) (hg0 : ip s.g s.g ≠ 0)
     (hcurv : ip s.g (hessp s.pos s.g) < 0)
     (hex : ∃ k, k < 9 ∧ (f (s.pos - ((sched k : K) * (ip s.g s.g / -ip s.g (hessp s.pos s.g))) • s.g)).1 ≤ s.energy) :
     ∃ k, k < 9 ∧ 0 < (sched k : K) * (ip s.g s.g / -ip s.g (hessp s.pos s.g))
       ∧ (f (s.pos - ((sched k : K) * (ip s.g s.g / -ip s.g (hessp s.pos s.g))) • s.g)).1 ≤ s.energy
       ∧ (∀ k', k' < k →
           s.energy < (f (s.pos - ((sched k' : K) * (ip s.g s.g / -ip s.g (hessp s.pos s.g))) • s.g)).1)
-      ∧ (match ncgEagerStep c f hessp ip gradnorm (cgOracle cc ip hessp) i s with
+      ∧ (match ncgEagerStep c f hessp ip gradnorm cgnorm (cgOracle base pa pr ip nrm hessp) i s with
          | .next s' => s'.pos = s.pos - ((sched k : K) * (ip s.g s.g / -ip s.g (hessp s.pos s.g))) • s.g
              ∧ s'.energy = (f s'.pos).1
          | .stop (.ok r) => r.status = 0
              ∧ r.x = s.pos - ((sched k : K) * (ip s.g s.g / -ip s.g (hessp s.pos s.g))) • s.g ∧ r.fn = (f r.x).1
          | .stop (.error _) => False) :=
-  ncgEagerStep_negcurv c f hessp ip gradnorm cc i s hip hm hsa hnn hraise hmax hg0 hcurv hex
+  ncgEagerStep_negcurv c f hessp ip gradnorm nrm base pa pr cgnorm i s hip hm hsa hnn hmax hg0 hcurv hex
 
-/-- **Trust-region Newton-CG never goes uphill**, for every sub-problem oracle whose predicted value is not above the
-    current value (`pred_f ≤ f_k`, which Steihaug-CG guarantees in exact arithmetic) and `0 ≤ eta`.
-    Full statement without the hypothesis on the oracle is FALSE for the code as it is: with `pred_f > f_k` and an
-    uphill step, `rho = actual/pred > eta` holds and the step is accepted (the loop then stops with status 2) —
-    see `trust_uphill_witness`. -/
+/-- **Trust-region Newton-CG never goes uphill** — for EVERY sub-problem oracle (no hypothesis on the sub-problem
+    solver: not even that its predicted value is below the current one), every objective, radius schedule and limit;
+    only `0 ≤ eta`, which `_trust_ncg` itself enforces (`raise Exception("invalid acceptance stringency")`).
+    This is the repaired acceptance rule `(rho > eta) & (pred_reduction > 0)`; with the original rule `rho > eta` the
+    statement is false (`old_rule_accepts_uphill` below) and the real code returned a higher point
+    (corpus/C17/trust_uphill_mixed_norm.json). -/
 theorem trust_never_uphill (tc : TCfg K) (gnorm : V → K) (sub : K → V → V → K → SubRes K V)
-    (hsub : ∀ fk gk xk tr, (sub fk gk xk tr).predF ≤ fk) (heta : 0 ≤ tc.eta) (x0 : V) :
+    (heta : 0 ≤ tc.eta) (x0 : V) :
     (trustNcg tc f gnorm sub x0).fn = (f (trustNcg tc f gnorm sub x0).x).1
     ∧ (trustNcg tc f gnorm sub x0).fn ≤ (f x0).1 := by
-  have := trustLoop_inv f tc gnorm sub hsub heta (f x0).1 tc.maxiter (trustInit tc f gnorm x0)
+  have := trustLoop_inv f tc gnorm sub heta (f x0).1 tc.maxiter (trustInit tc f gnorm x0)
     ⟨rfl, rfl, le_refl _⟩
   unfold trustNcg
   exact ⟨this.1, this.2.2⟩
@@ -124,16 +163,11 @@ def ipQ (a b : ℚ) : ℚ := a * b
 example : ipQ (fQ (3/10)).2 (fQ (3/10)).2 ≠ 0 ∧ ipQ (fQ (3/10)).2 (hQ (3/10) (fQ (3/10)).2) < 0 := by
   norm_num [ipQ, fQ, hQ]
 
-/-- an uphill step is accepted by `_trust_ncg`'s acceptance rule when the oracle predicts an increase:
-    `f(x) = x`, step `+1`, predicted value `f + 2`: `rho = (−1)/(−2) = 1/2 > eta`; the loop ends with status 2
-    and returns the higher point. -/
-theorem trust_uphill_witness :
-    let tc : TCfg ℚ := { maxiter := 5, absdelta := none, gtol := 1 / 10000, maxTr := 1000, initTr := 1,
-                         eta := 15 / 100, eps := 1 / 10 ^ 15 }
-    let r := trustNcg tc (fun x : ℚ => (x, (1 : ℚ))) (fun g => |g|) (fun fk _ _ _ => ⟨1, false, fk + 2⟩) 0
-    r.x = 1 ∧ r.fn = 1 ∧ r.status = 2 := by
-  simp [trustNcg, trustInit, trustLoop, trustStep, rhoGt, rhoLt, quarter, threeQuarter, two, NewtonRe.absK]
-  norm_num
+/-- the ORIGINAL acceptance test `rho > eta` alone admits an uphill step when the sub-problem solver predicts an increase:
+    actual reduction −1, predicted reduction −2 ⇒ `rho = 1/2 > 0.15` — while the repaired test rejects it. -/
+theorem old_rule_accepts_uphill :
+    rhoGt (-1 : ℚ) (-2) (15 / 100) = true ∧ (rhoGt (-1 : ℚ) (-2) (15 / 100) && decide ((0 : ℚ) < -2)) = false := by
+  constructor <;> simp [rhoGt] <;> norm_num
 
 end witnesses
 
